@@ -195,6 +195,20 @@ func (s *st) pick() (val string, t *world.Tok, label string) {
 	}
 }
 
+// symScope returns a symbolic required scope. Under the exact strategy it is an arbitrary printable string;
+// under the hierarchic and wildcard strategies it is built from one or two dot-free symbolic segments so that
+// strings.Split is structural (the strategies themselves are property C12's subject).
+func symScope(strat int) string {
+	if strat == 0 {
+		return zz.String("scope", 8)
+	}
+	sc := zz.StringEx("seg", 6, ".")
+	if zz.Choice("nsegs", 2) == 1 {
+		sc = sc + "." + zz.StringEx("seg", 6, ".")
+	}
+	return sc
+}
+
 // expectation of the ledger for token t at the current instant: +1 must be active, -1 must be inactive, 0 either.
 func (s *st) expect(t *world.Tok, disableRT bool) int {
 	if t == nil || !t.Live {
@@ -228,7 +242,7 @@ func truth(historyKinds, nStrategies, maxScopes int) {
 	hint := zz.String("hint", 14)
 	var req []string
 	for i, n := 0, zz.Choice("nscopes", maxScopes+1); i < n; i++ {
-		req = append(req, zz.String("scope", 8))
+		req = append(req, symScope(strat))
 	}
 
 	active, use, ar := s.w.IntrospectFull(val, fosite.TokenUse(hint), req...)
